@@ -1,7 +1,72 @@
-//! BollingerBands — reference model (TODO).
+//! BollingerBands. Doc: 3 values — `upper bound`, (middle), `lower bound`; linked formula (wikipedia):
+//!   middle = N-period simple moving average of the source, upper / lower = middle ± K · N-period
+//!   standard deviation (the crate's `StDev`: sample deviation, n − 1 in the denominator).
+//!   NOTE: the doc comment names value #1 "`source` value"; the linked page (and the three-band
+//!   structure upper / middle / lower) define the middle band as the moving average. The reference
+//!   uses the moving average; the wording of the doc comment is reported as a documentation defect.
+//! 1 signal: source above the upper bound: full buy; under the lower bound: full sell; otherwise the
+//!   relative position of the source between the bounds (lower -> -1, upper -> +1).
 use super::*;
 
-/// returns None until the reference is written
-pub fn make(_cfg: &Cfg, _c0: &RC) -> Option<Box<dyn IndRef>> {
-	None
+#[derive(Clone)]
+pub struct BollingerBands {
+	src: String,
+	sigma: f64,
+	mean: rm::Fir,
+	var: rm::Win,
+}
+
+/// the source as a plain number (for the exact evaluation of the signal rule)
+fn src_f64(c: &RC, kind: &str) -> f64 {
+	match kind {
+		"close" => c.c,
+		"open" => c.o,
+		"high" => c.h,
+		"low" => c.l,
+		"hl2" => (c.h + c.l) * 0.5,
+		"tp" => (c.h + c.l + c.c) / 3.0,
+		"volume" => c.v,
+		"volumed_price" => (c.h + c.l + c.c) / 3.0 * c.v,
+		o => panic!("unknown source {o}"),
+	}
+}
+
+pub fn make(cfg: &Cfg, c0: &RC) -> Option<Box<dyn IndRef>> {
+	let src = cfg.src("source");
+	let n = cfg.int("avg_size");
+	// constant prehistory: the window is filled with the first source value
+	let s0 = source(c0, &src);
+	Some(Box::new(BollingerBands { sigma: cfg.float("sigma"), mean: rm::Fir::new(rm::w_sma(n), s0), var: rm::Win::new_q(rm::WinKind::Variance, n, s0), src }))
+}
+
+/// `Action::from(ratio)`; a strength that falls on a rounding boundary (k + 1/2) is not determined
+fn ratio_sig(x: f64) -> Sig {
+	let y = x.abs().min(1.0) * 255.0;
+	if (y - y.floor() - 0.5).abs() < 1e-9 {
+		return Sig::Any;
+	}
+	sig_ratio(x)
+}
+
+impl IndRef for BollingerBands {
+	fn values(&mut self, c: &RC) -> Vec<Q> {
+		let s = source(c, &self.src);
+		let middle = self.mean.step(s);
+		let sd = self.var.step(s).sqrt();
+		let off = sd.scale(self.sigma);
+		vec![middle + off, middle, middle - off]
+	}
+	fn signals(&mut self, c: &RC, own: &[f64]) -> Vec<Sig> {
+		let s = src_f64(c, &self.src);
+		let (upper, lower) = (own[0], own[2]);
+		let range = upper - lower;
+		let s0 = if range == 0.0 {
+			// † follows the implementation: on a zero range the relative position counts as the middle (0.5)
+			sig_ratio(0.0)
+		} else {
+			ratio_sig((s - lower) / range * 2.0 - 1.0)
+		};
+		vec![s0]
+	}
+	indref!(BollingerBands);
 }
